@@ -32,6 +32,10 @@ CLAIMED = {
    text="Kernel-checked refinement: the Gallina model of RemoteJob (execute, poll with the retry counter, cancel, rerun, get_results, execute_sync) produces, on EVERY finite trace of client actions x server answers from every state, the outputs of the specification automaton of the statement (C17_refinement_repaired), with corollaries: sent at most once, final statuses absorbing with no request afterwards, four transient failures absorbed and every later consecutive one raised, success resets, fatal errors raise at once, results/cancel/rerun guards. The pre-repair code is kept as a second configuration with vm_compute-refuted witnesses (double send; sixth failure absorbed) — both repaired in /repo by fix commits. The model is tied to /repo by running the real RemoteJob + RPCHandler under `responses` on all traces of length <= 4 over a 14-symbol alphabet (prefix tree), all failure runs of length <= 8 and random long multi-job traces, comparing outcome, exception class, identifiers, HTTP requests received and white-box state at every step.",
    note="All theorems closed under the global context. Read time-outs, malformed 200 bodies and from_id are outside the modelled alphabet.",
    tech="Coq refinement proof (implementation state machine = specification automaton on all traces) + exhaustive short-trace and random long-trace correspondence"),
+ "C18": dict(cat="proof", ref="DESIGN.md §7 C18, Appendix A.6",
+   text="Kernel-checked theorems over ALL schedules (every list of worker steps and caller actions; program order is enforced by the worker's program counter) of a faithful two-thread model of LocalJob/Job/JobStatus/check_cancel: the task is entered at most once and exactly once in every finished job; the status field is RUNNING from the accepted execute until the wrapper's finish; after the task returned the job ends CANCELED iff a cancel action precedes the finish, else SUCCESS, with the task's results, and after an Exception it ends ERROR with the exception's type and message, for every prefix and continuation; no value can be obtained before the finish; a value once obtained is returned unchanged by every later get_results and is converted exactly once; callbacks installed at construction/set_progress_callback change nothing but what they receive (simulation); an unknown keyword makes execute fail before the task starts. Three statements are false of the faithful model and are proved refuted with witnesses that replay on /repo (open findings). The model is tied to /repo on every run by a semaphore-stepped harness task: every interleaving of <= 4 task steps with <= 3 (quick) / 4 (thorough) caller actions, synchronous (actions from the progress callback and from a second thread) and asynchronous, plus sampled schedules and an argument stream; every observation and the private state after every event are compared.",
+   note="All 20 theorems closed under the global context. Granularity: execute, cancel, status, get_results and every JobStatus update are atomic steps; pre-emption inside them, and between the task's return and the wrapper's final status update, is not exercised by the harness (the theorems cover the latter). results_list conversion is not modelled.",
+   tech="Coq proof by invariant over all schedules + refutation witnesses + extracted-model differential correspondence with forced interleavings (semaphores, watchdogs, no sleeps)"),
 }
 REASON_PENDING = "not yet built in this development (see DESIGN.md §10 for the build order); no check is claimed"
 
